@@ -3,9 +3,9 @@ CONSTANTS
   D = 4
   NV = 2
   DeltaVecs <- DV_std
-  Dists <- Dists_two
+  Dists <- Dists_sym
   Lim2 <- Lim2_none
-  MapIds = {2, 3, 4}
+  MapIds = {3, 4}
   Conds <- Conds_quick
 INIT Init
 NEXT Next
